@@ -19,28 +19,42 @@ EXTENDS Naturals, Sequences, FiniteSets, TLC
 
 CONSTANTS MaxLog, Executor
 
-VARIABLES appended, committed, pending, running, started, ended
-vars == <<appended, committed, pending, running, started, ended>>
+VARIABLES appended, committed, pending, running, started, ended, marked, restarts
+vars == <<appended, committed, pending, running, started, ended, marked, restarts>>
 \* pending  committed entries handed to the executor and not yet started
 \* running  entries whose execution has started and not ended
 \* started  indexes in the order their execution started;  ended: set
+\* marked   entries recorded as executed in the persistent cluster log (ClusterLog::log_executed): a restarted node
+\*          re-enqueues the committed entries that are NOT marked (ClusterStorage::new -> logs_unexecuted)
+\* restarts number of (clean) restarts so far
 
-Init == appended = 0 /\ committed = 0 /\ pending = {} /\ running = {} /\ started = <<>> /\ ended = {}
+\* TRUE: an entry is marked when its execution ended, whatever the action returned (the code); FALSE: only when the action
+\* succeeded - a failed action would then be executed again after a restart, later than its successors (probe)
+MarkFailed == TRUE
+MaxRestarts == 1
 
-ClientAppend == appended < MaxLog /\ appended' = appended + 1 /\ UNCHANGED <<committed, pending, running, started, ended>>
+Init == appended = 0 /\ committed = 0 /\ pending = {} /\ running = {} /\ started = <<>> /\ ended = {} /\ marked = {} /\ restarts = 0
+
+ClientAppend == appended < MaxLog /\ appended' = appended + 1 /\ UNCHANGED <<committed, pending, running, started, ended, marked, restarts>>
 Commit(k) == /\ k > committed /\ k <= appended
              /\ committed' = k /\ pending' = pending \cup ((committed + 1)..k)
-             /\ UNCHANGED <<appended, running, started, ended>>
+             /\ UNCHANGED <<appended, running, started, ended, marked, restarts>>
 Start(i) == /\ i \in pending
             /\ (Executor = "queue" => running = {} /\ \A j \in pending : i <= j)
             /\ pending' = pending \ {i} /\ running' = running \cup {i} /\ started' = Append(started, i)
-            /\ UNCHANGED <<appended, committed, ended>>
+            /\ UNCHANGED <<appended, committed, ended, marked, restarts>>
 End(i) == /\ i \in running /\ running' = running \ {i} /\ ended' = ended \cup {i}
-          /\ UNCHANGED <<appended, committed, pending, started>>
-Next == ClientAppend \/ (\E k \in 1..MaxLog : Commit(k)) \/ (\E i \in 1..MaxLog : Start(i) \/ End(i))
+          /\ \E succeeded \in BOOLEAN : marked' = IF succeeded \/ MarkFailed THEN marked \cup {i} ELSE marked
+          /\ UNCHANGED <<appended, committed, pending, started, restarts>>
+\* a clean restart (nothing is executing): the committed entries that are not marked are handed to the executor again
+Restart == /\ running = {} /\ restarts < MaxRestarts
+           /\ restarts' = restarts + 1 /\ pending' = (1..committed) \ marked
+           /\ UNCHANGED <<appended, committed, running, started, ended, marked>>
+Next == ClientAppend \/ (\E k \in 1..MaxLog : Commit(k)) \/ (\E i \in 1..MaxLog : Start(i) \/ End(i)) \/ Restart
 Spec == Init /\ [][Next]_vars
 
 InOrderOnce == /\ \A i \in DOMAIN started : started[i] = i
                /\ Cardinality(running) <= 1
+NoMark == FALSE
 
 =============================================================================
